@@ -12,7 +12,7 @@ from ..oracles import bspl, fem, advect
 
 PROPERTY = "C15"
 HANG_SECONDS = 900.0
-LINE_BUDGET = 3000000000
+LINE_BUDGET = 20000000000
 RULE = ("Hypothesis-generated simulation grids (theta counts even and odd), real densities (generated modes + seeded noise), "
         "chi in {0,1}, adiabatic or kinetic electrons, generated process grids; the pipeline is run exactly as the driver "
         "does it (rho on a LayoutHandler, phi on a LayoutSwapper: v_parallel_2d -> mode_solve -> v_parallel_2d).  Oracle: "
